@@ -64,6 +64,13 @@ def run_impl(hbin, cases, nsh=NCPU):
             res[i] = outs[k] if k < len(outs) else 'missing'
     with ThreadPoolExecutor(nsh) as ex:
         list(ex.map(work, shards))
+    # a watchdog expiry under load is not a hang of set_parameter: those cases run again, alone, with a long watchdog
+    late = [i for i, r in enumerate(res) if r in ('timeout', 'missing')]
+    if late:
+        rc, out = sh('%s run 120' % hbin, input='\n'.join(lines[i] for i in late) + '\n', timeout=3000)
+        outs = [l.strip() for l in out.split('\n') if re.match(r'(rc |crash|timeout|init )', l.strip())]
+        for k, i in enumerate(late):
+            res[i] = outs[k] if k < len(outs) else 'missing'
     return res
 
 
